@@ -554,6 +554,8 @@ def _node_representer(dumper, node):
 
     to_infer = list(tags_to_infer.keys())
 
+    from .nodes.function import FunctionNode
+    inherited = {}
     for f in to_infer:
         if f not in metadata:
             continue
@@ -561,11 +563,19 @@ def _node_representer(dumper, node):
         current = metadata[f]
         parent = parent_metadata.get(f, None) if parent_metadata else None
         default = type_defaults[f]
-        if current is not None:
-            if current == parent or current == default:
-                del metadata[f]
-        else:
+        if current is None:
             del metadata[f]
+        elif f == 'priority':
+            # the priority of a container is given to everything below it when the document is parsed,
+            # so it only has to be written where it differs from what is inherited
+            if current == (parent if parent is not None else default):
+                del metadata[f]
+            inherited[f] = current
+        elif f == 'delete' and isinstance(node, FunctionNode) and current is True:
+            # function nodes set this themselves when they are constructed
+            del metadata[f]
+        # any other explicit flag is kept: even when it equals the type's default or the value inherited from the parent
+        # it is not equivalent to a missing one (it is what the children inherit and what "remove this key" looks at)
 
     metadata = { key: value for key, value in metadata.items() if key not in dumper.exclude_metadata }
 
@@ -581,7 +591,7 @@ def _node_representer(dumper, node):
         # in "tags_to_infer")
         key = next(iter(metadata.keys()))
         maybe_tag = tags_to_infer.get(key)
-        if maybe_tag:
+        if maybe_tag and maybe_tag.get(metadata[key]) and maybe_tag[metadata[key]] != '!safe': # there is no '!safe' tag
             tag = maybe_tag[metadata[key]]
             del metadata[key]
 
@@ -601,7 +611,7 @@ def _node_representer(dumper, node):
 
     pop = False
     if isinstance(node, ComposedNode):
-        dumper.metadata.append({ **parent_metadata, **metadata })
+        dumper.metadata.append({ **parent_metadata, **inherited })
         pop = True
 
     try:
